@@ -28,6 +28,7 @@ const (
 	VCall   // call of a function: Fn + L (args)
 	VNil
 	VFuncLit
+	VFunc // a declared function used as a value: Fn
 )
 
 type Val struct {
